@@ -45,11 +45,21 @@ func NewProvider(fs filesystem.Filespace, helpersPath, layoutPath, viewPath, ext
 }
 
 // Base return base template (with loaded helpers)
-func (provider *Provider) Base() (*template.Template, error) {
-	if provider.baseTemplate != nil {
-		return provider.baseTemplate, nil
+func (provider *Provider) Base() (baseTemplate *template.Template, err error) {
+	if baseTemplate, err = provider.base(); err != nil {
+		return nil, err
 	}
-	return provider.base()
+	return provider.handOut(baseTemplate)
+}
+
+// handOut return a template to a caller. html/template refuses to Clone a
+// template after it has executed and layouts and views are cloned from the
+// cached base and layout templates: a caller gets its own copy of those.
+func (provider *Provider) handOut(tmpl *template.Template) (*template.Template, error) {
+	if !provider.isCached {
+		return tmpl, nil
+	}
+	return tmpl.Clone()
 }
 
 func (provider *Provider) base() (baseTemplate *template.Template, err error) {
@@ -79,7 +89,15 @@ func (provider *Provider) base() (baseTemplate *template.Template, err error) {
 }
 
 // Layout return template for named layout (with loaded helpers and layout definitions)
-func (provider *Provider) Layout(name string) (*template.Template, error) {
+func (provider *Provider) Layout(name string) (layoutTemplate *template.Template, err error) {
+	if layoutTemplate, err = provider.cachedLayout(name); err != nil {
+		return nil, err
+	}
+	return provider.handOut(layoutTemplate)
+}
+
+// cachedLayout return the layout template views are cloned from
+func (provider *Provider) cachedLayout(name string) (*template.Template, error) {
 	if name == "" {
 		name = goathtml.DefaultLayout
 	}
@@ -102,7 +120,7 @@ func (provider *Provider) layout(name string) (layoutTemplate *template.Template
 	if layoutTemplate, ok = provider.layouts[name]; ok {
 		return layoutTemplate, nil
 	}
-	if layoutTemplate, err = provider.Base(); err != nil {
+	if layoutTemplate, err = provider.base(); err != nil {
 		return nil, err
 	}
 	if layoutTemplate, err = layoutTemplate.Clone(); err != nil {
@@ -162,7 +180,7 @@ func (provider *Provider) view(layoutName, viewName, key string) (viewTemplate *
 		return viewTemplate, nil
 	}
 	// create a new view
-	if layoutTemplate, err = provider.Layout(layoutName); err != nil {
+	if layoutTemplate, err = provider.cachedLayout(layoutName); err != nil {
 		return nil, err
 	}
 	if viewTemplate, err = layoutTemplate.Clone(); err != nil {
